@@ -687,10 +687,17 @@ pub fn run_c16(ctx: &Ctx) -> Report {
         z.known = known.clone();
         let m = x.model.clone();
         z.apply_options(&m);
-        z.restore(export.clone(), handled.clone());
+        // the export is handed over "before reconnecting with the session present": either before the handshake starts or
+        // (the natural place for a server, which learns the client id from the CONNECT) between CONNECT and CONNACK
+        let late_restore = r.below(3) == 0;
+        if late_restore {
+            rep.count("restore_between_connect_and_connack");
+        } else {
+            z.restore(export.clone(), handled.clone());
+        }
         // ids of the export are in use and cannot be re-acquired / registered
         rep.hit("E1-exported-ids-in-use-after-restore");
-        for p in &export {
+        for p in export.iter().filter(|_| !late_restore) {
             if let Some(id) = p.id() {
                 match z.conn.register(id) {
                     Ok(Ok(())) => {
@@ -737,13 +744,23 @@ pub fn run_c16(ctx: &Ctx) -> Report {
                 cont.swap(k, j);
             }
         }
-        let run = |d: &mut Driver| -> Vec<String> {
-            let start = d.op_trace.len();
+        let run = |d: &mut Driver, restore_now: bool| -> Vec<String> {
+            let mut start = d.op_trace.len();
             if d.sc.as_client {
                 d.send(connect.clone());
-                d.feed(&rc::encode(&connack, d.sc.idw), &[]);
             } else {
                 d.feed(&rc::encode(&connect, d.sc.idw), &[]);
+            }
+            if restore_now {
+                let first: Vec<String> = d.op_trace[start..].to_vec();
+                d.restore(export.clone(), handled.clone());
+                // (the restore call itself is not part of the compared trace)
+                start = d.op_trace.len();
+                d.op_trace.extend(first);
+            }
+            if d.sc.as_client {
+                d.feed(&rc::encode(&connack, d.sc.idw), &[]);
+            } else {
                 d.send(connack.clone());
             }
             for p in &cont {
@@ -759,8 +776,10 @@ pub fn run_c16(ctx: &Ctx) -> Report {
         }
         // exchanges between PUBREC and PUBCOMP whose PUBREL is not stored are not part of the export
         let unexported = x.model.owner.iter().any(|(id, o)| matches!(o, Owner::RelPending | Owner::PubComp) && !export.iter().any(|p| p.id() == Some(*id)));
-        let tx = run(&mut x);
-        let tz = run(&mut z);
+        // (an Any-role original may have changed sides between its connections: both reconnect from the same side)
+        z.sc.as_client = x.sc.as_client;
+        let tx = run(&mut x, false);
+        let tz = run(&mut z, late_restore);
         rep.api_calls += (2 + cont.len() as u64) * 2;
         rep.hit("E2-restored-object-continues-like-the-original");
         rep.distinct_hash(x.finish_shape() ^ (crash_at as u64) << 48);
